@@ -777,10 +777,35 @@ fn main() {
         .stack_size(stack)
         .spawn(move || {
             let mut res = Vec::new();
+            // `ONW\t<request>`: run the (context-free) request on a second, persistent thread, so that per-thread
+            // state in the crate — which the properties say does not exist — would show
+            let (wtx, wrx) = std::sync::mpsc::channel::<String>();
+            let (rtx, rrx) = std::sync::mpsc::channel::<String>();
+            let wlog = log.clone();
+            std::thread::Builder::new()
+                .stack_size(stack)
+                .spawn(move || {
+                    let mut wctxs: HashMap<String, Ctx> = HashMap::new();
+                    for req in wrx {
+                        let r = match catch_unwind(AssertUnwindSafe(|| handle(&req, &mut wctxs, &wlog))) {
+                            Ok(s) => s,
+                            Err(_) => "PANIC".to_string(),
+                        };
+                        if rtx.send(r).is_err() {
+                            break;
+                        }
+                    }
+                })
+                .unwrap();
             for line in lines {
-                let r = match catch_unwind(AssertUnwindSafe(|| handle(&line, &mut ctxs, &log))) {
-                    Ok(s) => s,
-                    Err(_) => "PANIC".to_string(),
+                let r = if let Some(rest) = line.strip_prefix("ONW\t") {
+                    wtx.send(rest.to_string()).ok();
+                    rrx.recv().unwrap_or_else(|_| "PANIC".to_string())
+                } else {
+                    match catch_unwind(AssertUnwindSafe(|| handle(&line, &mut ctxs, &log))) {
+                        Ok(s) => s,
+                        Err(_) => "PANIC".to_string(),
+                    }
                 };
                 if careful {
                     println!("{}", r);
